@@ -47,7 +47,11 @@ def s_static(n, t, init, uid, thread=False):
     return d
 def misalign(l, n): return {"k": "misalign", "l": l, "n": n}
 def sizeof_(l): return {"k": "sizeof", "l": l}
-def s_vla(n, t, length): return {"k": "vla", "n": n, "t": t, "len": length}
+def s_vla(n, t, length, length2=None):
+    d = {"k": "vla", "n": n, "t": t, "len": length}
+    if length2 is not None:
+        d["len2"] = length2
+    return d
 def incdec(l, dec=False, post=False): return {"k": "incdec", "l": l, "dec": dec, "post": post}
 def asg_e(op, l, r): return {"k": "asg", "op": op, "l": l, "r": r}
 
@@ -205,7 +209,7 @@ def rstmt(s, structs, ind=1):
             d += " = " + rinit(s["init"], structs)
         return t + d + ";\n"
     if k == "vla":
-        return t + ctype(s["t"], structs, "%s[%s]" % (s["n"], r(s["len"]))) + ";\n"
+        return t + ctype(s["t"], structs, "%s[%s]%s" % (s["n"], r(s["len"]), "[%s]" % r(s["len2"]) if "len2" in s else "")) + ";\n"
     if k == "block":
         return t + "{\n" + "".join(rstmt(x, structs, ind + 1) for x in s["ss"]) + t + "}\n"
     if k == "if":
